@@ -217,6 +217,7 @@ def run_scenario(sc, peer_factory=None, inv_factory=None, quiesce=True) -> Run:
                         if hasattr(e, "consecutive_failures_count"):
                             rec["cfc"] = e.consecutive_failures_count
                     rec["t1"] = round(loop.time(), 9)
+                    rec["open_at_return"] = len(loop.open_transports())      # (the very moment the caller gets control back, before the loop runs again)
                     loop.ev("ret", cid, ti, rec["outcome"])
                     run.calls.append(rec)
                     if quiesce and len(tasks) == 1:
